@@ -89,8 +89,17 @@ def make_judge(chk: Check):
                     if d.owner is None:
                         where_declared.setdefault((m.py_module, d.kind, d.pyname), []).append(rel)
                     chk.case_ok(f"model-free:{d.kind}", ident=(case.cid, rel, d.path()))
+            # (a name that several source modules declare at top level - 'class int' shadowing the builtin in two modules, both
+            # re-exported into one package - is several declarations: only names with ONE declaration in the source are judged)
+            import re as _re
+
+            declared_in: dict = {}
+            for fk, fv in case.files.items():
+                if fk.endswith(".py") and isinstance(fv, str):
+                    for nm_ in set(_re.findall(r"^(?:class|def|async def)\s+([A-Za-z_][A-Za-z0-9_]*)", fv, _re.M)):
+                        declared_in[nm_] = declared_in.get(nm_, 0) + 1
             for (mod, kind, name), rels in where_declared.items():
-                if len(set(rels)) > 1:
+                if len(set(rels)) > 1 and declared_in.get(name, 1) <= 1:
                     viols.append(Viol("declaration-emitted-twice", f"model-free:{kind}", {"python_module": mod, "name": name, "files": sorted(set(rels))}))
             return viols
         pubs = pg.publicity(pkg)
